@@ -9,6 +9,7 @@ package skipdrv
 //	    random histories on the unhooked constructor (real random heights); records every result and the
 //	    parsed printed form after every operation, to be judged by TLC (SkipListTrace).
 import (
+	"bytes"
 	"encoding/json"
 	"fmt"
 	"math"
@@ -157,6 +158,28 @@ func lenSpace(n int, desc bool) keyspace[string] {
 	ks.cmp = c
 	if desc {
 		ks.cmp = reverse[string](c)
+	}
+	return ks
+}
+
+// keys of a type that cannot be compared with == (a struct holding a slice): only the comparison trait handed to New tells
+// keys apart; a shortcut through == or through a map key panics at run time for such keys
+type bkey struct{ b []byte }
+
+func (k bkey) String() string { return string(k.b) }
+
+func bytesSpace(n int, desc bool) keyspace[bkey] {
+	tbl := append([]string{}, words...)
+	sort.Strings(tbl)
+	ks := keyspace[bkey]{name: "struct-with-slice", index: map[string]int{}}
+	ks.key = func(i int) bkey { return bkey{b: []byte(tbl[i-1])} }
+	for i := 1; i <= n; i++ {
+		ks.index[tbl[i-1]] = i
+	}
+	c := ord.From[bkey](func(a, b bkey) ord.Ordering { return ord.Ordering(bytes.Compare(a.b, b.b)) })
+	ks.cmp = c
+	if desc {
+		ks.cmp = reverse[bkey](c)
 	}
 	return ks
 }
@@ -473,6 +496,7 @@ func TestReplay(t *testing.T) {
 	replaySpace(intZeroSpace(maxKey, desc), desc, cases, levels, out, st)
 	replaySpace(strSpace(maxKey, desc), desc, cases, levels, out, st)
 	replaySpace(lenSpace(maxKey, desc), desc, cases, levels, out, st)
+	replaySpace(bytesSpace(maxKey, desc), desc, cases, levels, out, st)
 	tallNodes(intSpace(max(maxKey, 3), desc), desc, max(maxKey, 3), out, st)
 	tallNodes(strSpace(max(maxKey, 3), desc), desc, max(maxKey, 3), out, st)
 	out.Put(map[string]any{"t": "stats", "cases": st.Cases, "transitions": st.Transitions, "ops": st.Ops})
@@ -621,7 +645,9 @@ func TestRandom(t *testing.T) {
 		if desc {
 			order = "desc"
 		}
-		switch i % 4 {
+		switch i % 5 {
+		case 4:
+			randomSpace(bytesSpace(nkeys, desc), order, rng, nkeys, nops, out)
 		case 3:
 			randomSpace(intZeroSpace(nkeys, desc), order, rng, nkeys, nops, out)
 		case 0:
